@@ -50,7 +50,7 @@ def floors(tier):
         "ops": ["fix_parameter", "release_parameter", "add_parameter_constraint", "add_matrix_parameter_constraint", "set_parameter_values", "do_fit", "member.add_parameter_constraint", "member.add_matrix_parameter_constraint"],
         "reach": ["%s:%s" % a for a in ANCHORS],
         "sets": {"type_cost": 25},
-        "strata": ["multi", "unbinned", "hist", "xy", "indexed", "release-after-fix", "constraint-after-fit"],
+        "strata": ["multi", "unbinned", "hist", "xy", "indexed", "release-after-fix", "fix-again", "constraint-after-fit"],
         "distinct_nontrivial": 150,
     }
 
@@ -87,8 +87,11 @@ def gen_history(rng, pnames, pvals, length, members=None):
     for _ in range(length):
         r = rng.random()
         free = [n for n in pnames if n not in fixed]
-        if r < 0.2 and len(free) > 1:
-            n = free[int(rng.integers(0, len(free)))]
+        if r < 0.2 and (len(free) > 1 or fixed):
+            # now and then a parameter that is fixed already is fixed again, to another value (a manual scan does exactly this)
+            again = bool(fixed) and (len(free) <= 1 or rng.random() < 0.35)
+            pool = sorted(fixed) if again else free
+            n = pool[int(rng.integers(0, len(pool)))]
             v = None if rng.random() < 0.5 else float(np.round(pvals[pnames.index(n)] * rng.uniform(0.9, 1.1) + 0.01, 5))
             ops.append(["fix_parameter", n, v])
             fixed.add(n)
@@ -242,6 +245,8 @@ def run_single(ctx, case):
         hist_so_far.append(op[0])
         if op[0] == "release_parameter":
             ctx.stratum("release-after-fix")
+        if op[0] == "fix_parameter" and op[1] in mb.ref.fixed:
+            ctx.stratum("fix-again")
         if op[0].startswith("add_") and did_fit:
             ctx.stratum("constraint-after-fit")
         if op[0] in ("fix_parameter", "release_parameter", "add_parameter_constraint", "add_matrix_parameter_constraint"):
@@ -358,6 +363,8 @@ def run_multi(ctx, case):
                 ctx.stratum("constraint-after-fit")
             if k == "release_parameter":
                 ctx.stratum("release-after-fix")
+            if k == "fix_parameter" and op[1] in state["fixed"]:
+                ctx.stratum("fix-again")
             if k == "add_parameter_constraint":
                 a = op[1]
                 multi.add_parameter_constraint(name=a["name"], value=a["value"], uncertainty=a["uncertainty"], relative=a.get("relative", False))
